@@ -65,16 +65,19 @@ const (
 	InvUnknownGrouping = "unknown-grouping"
 	InvUndefinedBase   = "undefined-base"
 	InvDupSibling      = "dup-sibling"
-	InvBadRange        = "bad-range"
-	InvBadConfig       = "bad-config-value"
-	InvDevMissing      = "dev-missing-target"
-	InvDevAddDefault   = "dev-add-existing-default"
-	InvDevDelDefault   = "dev-delete-absent-default"
-	InvDevDelOther     = "dev-delete-different-default"
-	InvDevMinNonList   = "dev-min-on-non-list"
-	InvDevDelMin       = "dev-delete-different-min"
-	InvDevBadType      = "dev-unresolvable-type"
-	InvDevUnknownKind  = "dev-unknown-kind"
+	// InvDupUses: the same (non-empty) grouping used twice in one place: every
+	// node arrives twice, from one and the same definition.
+	InvDupUses        = "dup-uses"
+	InvBadRange       = "bad-range"
+	InvBadConfig      = "bad-config-value"
+	InvDevMissing     = "dev-missing-target"
+	InvDevAddDefault  = "dev-add-existing-default"
+	InvDevDelDefault  = "dev-delete-absent-default"
+	InvDevDelOther    = "dev-delete-different-default"
+	InvDevMinNonList  = "dev-min-on-non-list"
+	InvDevDelMin      = "dev-delete-different-min"
+	InvDevBadType     = "dev-unresolvable-type"
+	InvDevUnknownKind = "dev-unknown-kind"
 	// InvFanoutChain: an unresolvable typedef below a chain of typedefs each of
 	// which is a union of two references to the level below: resolution work
 	// must stay polynomial (a hang is a C01 violation).
@@ -602,6 +605,16 @@ func (g *gen) body(mi int, m *Mod, sc *scope, where string, depth, n int) []*Nod
 		out = append(out, nd)
 	}
 	if where != KChoice {
+		// the same grouping used a second time in this place
+		for _, o := range out {
+			if o.Kind == KUses && o.Uses != nil && g.gsize[*o.Uses] > 0 {
+				if g.wantInvalid(InvDupUses) {
+					u := *o.Uses
+					out = append(out, &Node{Kind: KUses, Uses: &u})
+				}
+				break
+			}
+		}
 		// a second sibling with the name of an existing one
 		for _, o := range out {
 			if o.Kind != KUses && o.Kind != KInput && o.Kind != KOutput {
